@@ -632,7 +632,7 @@ func runC15(a *Args) error {
 	w.Rule = "histories of FileCache.Set / Get and environment operations (corrupt, remove, directory in the way) on a fresh cache directory, run on the real verifier/crl.FileCache; families: expiry matrix (base x delta in fresh / expired / zero NextUpdate / not a CRL / nil), isolation scripts over all pairs of near-identical urls, hostile urls (traversal, empty, the file name of another url, 5 kB) with decoy entries planted outside the root, ~70 kinds of corruption of a stored entry (truncation at every length class, bit flips, swapped fields, foreign JSON, wrong types, bad base64, damaged DER), nil bundles and directories in the way, random histories of 3..12 operations followed by a sweep of Gets, and entries that expire while the history runs (real clock). non-trivial = some Get addresses a url that was stored or corrupted earlier in the history, or the history touches a hostile url; distinct = distinct (family, urls, operations, CRL kinds, corruption, results) sequences"
 	w.Assumptions = []string{
 		"crypto/sha256 has no collision among the urls of a history (checked per case inside Coq: wf)",
-		"encoding/json + encoding/base64 decode what they encoded (checked per Set inside Coq: wf) and x509.ParseRevocationList(der).Raw = der",
+		"encoding/json + encoding/base64 decode what they encoded (checked per Set inside Coq: wf); x509.ParseRevocationList is an oracle giving (Raw, NextUpdate) | error for every byte string met (it ignores bytes after the first DER element, so Raw may be a proper prefix of a stored part)",
 		"the cache directory is writable and the process can read its files (no I/O errors other than a directory sitting at an entry's name)",
 		"no NextUpdate lies within 3 ms of a Get (the driver repeats the Get otherwise); the boundary now = NextUpdate is not explored",
 	}
